@@ -111,6 +111,14 @@ Definition s_c17 (p q : state) (blk : block) (sender : N) (o : op) (ok : bool) :
                 opt_eqb perms_eqb (get ordN (permissions p) s) (get ordN (permissions q) s) &&
                 match o with Execute ms => has_send ms | _ => false end))
           (all_keys p q)) then 2
+  else if ok && match o with
+                | UpdateAdmins l => match map_validate l with
+                                    | Ok xs => negb (nlist_eqb xs (admins q))
+                                    | _ => true
+                                    end
+                | Freeze => mutable_ q
+                | _ => false
+                end then 3     (* an accepted UpdateAdmins / Freeze did not take effect exactly as submitted *)
   else 0.
 
 (* ---------------------------------------------------------------------------------------- *)
@@ -140,12 +148,17 @@ Definition s_c08 (p q : state) (blk : block) (sender : N) (o : op) (ok : bool) :
       let ds := d :: denoms_of a ++ denoms_of (stored q s) in
       if negb (unchanged_except s) then 7
       else if negb (forallb (fun d' => amount_of (stored q s) d' =? amount_of base d' + (if d' =? d then n else 0)) ds) then 8
+      else if negb (exp_eqb (exp_of (stored q s)) (match e with Some x => x | None => exp_of base end)) then 12
+           (* expiry after an increase: the requested one, else that of the unexpired previous grant, else Never *)
       else 0
   | DecreaseAllowance (Some s) (d, n) e =>
       let a := stored p s in
       let ds := d :: denoms_of a ++ denoms_of (stored q s) in
       if negb (unchanged_except s) then 9
       else if negb (forallb (fun d' => amount_of (stored q s) d' =? amount_of a d' - (if d' =? d then n else 0)) ds) then 10
+      else if match stored q s with
+              | Some x => negb (exp_eqb (a_exp x) (match e with Some y => y | None => exp_of a end))
+              | None => false end then 13     (* expiry after a decrease: the requested one, else unchanged *)
       else 0
   | _ => if unchanged_except 1000000000 then 0 else 11
   end.
